@@ -51,7 +51,7 @@ def concrete_playback(scratch, spec, cap_s, unwindset=None):
     return tests, ""
 
 
-def native_run(spec, tests, tag="replay"):
+def native_run(spec, tests, tag="replay", expect_msgs=None):
     """Build a shim-free scratch with the harness module copied + tests appended; run them natively.
     Returns (reproduced: bool, detail: str)."""
     sc = kani.Scratch(spec["config"], tag)
@@ -90,6 +90,10 @@ def native_run(spec, tests, tag="replay"):
         fmt_mismatch = bool(pm0 and "kani/src/concrete_playback.rs" in pm0.group(1)) or ("Not enough det vals" in out)
         if failed and fmt_mismatch:
             details.append("playback input does not match the harness' kani::any() sequence (not a reproduction): %s" % out[-300:])
+        elif failed and expect_msgs and not any(m in out for m in expect_msgs):
+            pm = re.search(r"panicked at ([^\n]*)\n([^\n]*)", out)
+            details.append("native run panicked, but not with the violated check (%s): %s" % (
+                expect_msgs[0][:60], (pm.group(1) + " " + pm.group(2)) if pm else "panic"))
         elif failed:
             reproduced = True
             pm = re.search(r"panicked at ([^\n]*)\n([^\n]*)", out)
@@ -147,7 +151,17 @@ def replay_failure(pid, spec, res, scratches):
         json.dump(rec, open(path, "w"), indent=1)
         return dict(reproduced=False, path=path, why=why)
     rec["tests"] = [dict(name=n, source=t) for n, t in tests]
-    ok, detail = native_run(spec, tests)
+    # the native panic must be the violated check itself: harness assertions carry their message ("C06: ..."), which must
+    # show up in the panic text; other failed checks (overflow, index) are matched by their Kani description
+    msgs = []
+    for fc in res.get("failed", []):
+        raw = fc.get("desc", "").strip()
+        custom = raw.startswith('"')
+        d = re.sub(r"^assertion failed: ", "", raw.strip('"'))
+        if len(d) >= 8:
+            msgs.append(d[:60] if custom else d[:20])
+    rec["expect_msgs"] = msgs
+    ok, detail = native_run(spec, tests, expect_msgs=msgs)
     rec["reproduced"] = ok
     rec["native_detail"] = detail
     json.dump(rec, open(path, "w"), indent=1)
@@ -163,6 +177,6 @@ def replay_file(path):
         return False
     spec = dict(name=rec["harness"], config=rec["config"], file=rec["file"], harness_file=rec["harness_file"],
                 rewrites=[tuple(r) for r in rec.get("rewrites", [])])
-    ok, detail = native_run(spec, [(t["name"], t["source"]) for t in rec["tests"]], tag="replayfile")
+    ok, detail = native_run(spec, [(t["name"], t["source"]) for t in rec["tests"]], tag="replayfile", expect_msgs=rec.get("expect_msgs"))
     print(detail)
     return ok
